@@ -38,9 +38,14 @@ Sources  == {"own", "desc", "cprim", "cprim_anc", "cprim_anc2"}
 \* "Tightenings that descendants apply to inherited properties are excluded by design."
 Enforced == {"own", "cprim", "cprim_anc", "cprim_anc2"}
 
-Kinds       == {"str", "bytes", "int", "cprim_str", "cprim_bytes", "list_str", "list_cls", "list_acls", "list_ccls", "list_cprim"}
+Kinds       == {"str", "bytes", "int", "cprim_str", "cprim_bytes", "list_str", "list_cls", "list_acls", "list_ccls", "list_cprim",
+                "stub", "list_stub", "cstub"}
+\* stub / list_stub: x is (a list of) an ABSTRACT class WITHOUT concrete descendants; cstub: x is a concrete class whose only
+\* descendant is such an abstract stub (classes with an interface but nothing to choose from).  No instance of a stub can be
+\* written (and the SDK generator is not asked): only the scenario-level clauses (Generated, SchemaLoads) are judged.
 \* list_ccls: a list of a CONCRETE class that has a concrete descendant; the items alternate between the two classes
 ListKinds   == {"list_str", "list_cls", "list_acls", "list_ccls", "list_cprim"}
+StubKinds   == {"stub", "list_stub", "cstub"}
 CprimKinds  == {"cprim_str", "cprim_bytes", "list_cprim"}
 StringKinds == {"str", "cprim_str", "list_cprim"}     \* kinds with a string somewhere (pattern-able)
 Ops         == {"<", "<=", "==", ">", ">=", "!="}
@@ -106,7 +111,7 @@ SrcOk(sc, k) ==
     /\ (k.tgt = "item" <=> (sc.kind = "list_cprim" /\ k.src \in {"cprim", "cprim_anc", "cprim_anc2"}))
 WellFormed(sc) ==
     /\ sc.kind \in Kinds /\ sc.L \in 1..3 /\ sc.pa \in 1..sc.L /\ sc.opt \in BOOLEAN
-    /\ \A q \in 1..Len(sc.atoms) : SrcOk(sc, sc.atoms[q]) /\ sc.atoms[q].op \in Ops /\ sc.kind # "int"
+    /\ \A q \in 1..Len(sc.atoms) : SrcOk(sc, sc.atoms[q]) /\ sc.atoms[q].op \in Ops /\ sc.kind \notin {"int"} \cup StubKinds
     /\ \A q \in 1..Len(sc.pats) : SrcOk(sc, sc.pats[q]) /\ sc.kind \in StringKinds
 ValueOk(sc, v) ==
     /\ v.inst \in sc.pa..sc.L
